@@ -226,6 +226,15 @@ example : runTrace init [.connCall, .implStart, .implOk 1, .status .connected, .
 example : runTrace init [.connCall, .implStart, .implOk 1, .status .connected, .connCancel, .connCall, .abandon 1, .implStart] = none := by
   decide +kernel
 
+-- What the model does NOT promise (the known findings `C13/connected-without-receiver/*`): it admits the history in which the application
+-- cancels its own connect() after CONNECTED was reported and before the receive task was started — the state is then CONNECTED, nobody
+-- reads, no reconnect task is alive, and nothing in the LTS forces a further step.  (Recovery is a liveness claim; the theorems above say
+-- which recovery runs exist and which steps are impossible, the monitors `not-recovered` / `connected-without-receiver` and the replays
+-- in `tools/repros/C13_known_*.py` exhibit the histories in which the real client stays there.)
+example : (runTrace init [.connCall, .implStart, .implOk 1, .status .connected, .connReturn, .recvStart 1, .envEof 1, .writerClose 1,
+    .status .disconnected, .recvExit 1 false, .connCall, .implStart, .implOk 2, .status .connected, .connCancel]).map
+    (fun s => (s.st, s.recv, s.reconn, s.calls)) = some (.connected, none, 0, 0) := by decide +kernel
+
 -- non-vacuity: three refusals then success from the initial state
 example : (runTrace init (recoveryTrace 3 1)).map (fun s => (s.st, s.recv, s.statusLog)) = some (.connected, some 1, [.connected]) := by decide +kernel
 
